@@ -2,6 +2,8 @@ package kvh
 
 import (
 	"fmt"
+	"os"
+	"path/filepath"
 
 	kv "github.com/XiXi-2024/xixi-kv"
 	"github.com/XiXi-2024/xixi-kv/fio"
@@ -19,6 +21,31 @@ type Opt struct {
 	BytesPerSync uint  `json:"bytesPerSync"`
 	// Slash: the directory is passed with a trailing separator ("…/db/"): another spelling of the same directory
 	Slash bool `json:"slash,omitempty"`
+	// OddDir / Sidecar are read from the FIRST configuration of a history only (they describe the directory, which
+	// stays the same across reopens): the directory's name contains glob metacharacters, a space and a non-ASCII
+	// letter; the directory holds files that are not the engine's (a sidecar file whose name sorts behind the data
+	// files, a hidden file, a lost+found sub-directory), created before the first Open
+	OddDir  bool `json:"oddDir,omitempty"`
+	Sidecar bool `json:"sidecar,omitempty"`
+}
+
+// DirName returns the name of the data directory of a history that starts with configuration o.
+func (o Opt) DirName() string {
+	if o.OddDir {
+		return "d[4-2]b *?é"
+	}
+	return "db"
+}
+
+// PrepareDir creates the foreign files of a history that starts with configuration o.
+func (o Opt) PrepareDir(dir string) {
+	if !o.Sidecar {
+		return
+	}
+	_ = os.MkdirAll(filepath.Join(dir, "lost+found"), 0o755)
+	_ = os.WriteFile(filepath.Join(dir, "zz-notes.json"), []byte("{\"schema\": 3}\n"), 0o644)
+	_ = os.WriteFile(filepath.Join(dir, ".hidden"), []byte("x"), 0o644)
+	_ = os.WriteFile(filepath.Join(dir, "README"), nil, 0o644)
 }
 
 func (o Opt) KV(dir string) kv.Options {
@@ -43,6 +70,12 @@ func (o Opt) String() string {
 	if o.Slash {
 		s += "/dir-with-trailing-slash"
 	}
+	if o.OddDir {
+		s += "/odd-dir-name"
+	}
+	if o.Sidecar {
+		s += "/foreign-files"
+	}
 	return s
 }
 
@@ -63,6 +96,7 @@ type OptProfile struct {
 	MMapPercent int     // share of mmap cases when allowed (default 25)
 	FileSizes   []int64 // override
 	Syncs       []byte  // allowed sync strategies (nil = all three)
+	OddDirs     bool    // the history may live in an oddly named directory / next to foreign files (see Opt.OddDir)
 }
 
 // GenOpt draws a configuration. Only documented/accepted values are produced:
@@ -92,5 +126,9 @@ func GenOpt(t *rapid.T, label string, p OptProfile) Opt {
 	o.Sync = Pick(t, syncs, label+".sync")
 	o.BytesPerSync = Pick(t, bpsChoices, label+".bps")
 	o.Slash = Pct(t, 8, label+".slash")
+	if p.OddDirs {
+		o.OddDir = Pct(t, 6, label+".odddir")
+		o.Sidecar = Pct(t, 8, label+".sidecar")
+	}
 	return o
 }
